@@ -287,7 +287,7 @@ class BaseEvolutionOperations(object):
                 column_def += [
                     'REFERENCES',
                     qn(related_model._meta.db_table),
-                    '(%s)' % qn(related_model._meta.pk.name),
+                    '(%s)' % qn(related_model._meta.pk.column),
                     self.get_deferrable_sql(),
                 ]
         else:
